@@ -101,7 +101,9 @@ pub fn programs_up_to(n: usize) -> Space<Vec<Sk>> {
 pub type Dev = Option<(usize, usize)>;
 
 pub const COND_ALTS: &[&str] = &["1", "-1", "\"\"", "\"0\"", "\"a\"", "0 over 0", "ea", "ne", "0", "null", "mysterious", "0 times -1", "tv", "not tv"];
-pub const LOOP_ALTS: usize = 6;
+pub const LOOP_ALTS: usize = 6 + GUARD_KINDS.len();
+/// loop guards of every value kind: the guard variable gv is overwritten by the first statement of the body, so the loop runs at most once
+pub const GUARD_KINDS: &[&str] = &["ea", "ne", "\"\"", "\"a\"", "1", "0", "mysterious", "null", "0 over 0", "\"0\"", "true", "false"];
 
 pub fn alternatives(s: &Sk) -> usize {
     match s {
@@ -221,10 +223,17 @@ pub fn render(prog: &[Sk], dev: Dev, close_last: bool) -> String {
                             if *until { "until not tv".into() } else { "while tv".into() }
                         }
                         Some(4) => if *until { "while roll q".into() } else { "until not roll q".into() },
-                        Some(_) => {
+                        Some(5) => {
                             // guard of another kind: a string from a queue of strings is truthy
                             pre = String::new();
                             format!("{} roll q and \"\"", kw)
+                        }
+                        Some(k) => {
+                            // the guard is a variable holding a value of kind k; the body's first statement ends the loop
+                            let kind = GUARD_KINDS[k - 6];
+                            out.push_str(&format!("put {} into gv\n", kind));
+                            pre = if *until { "put true into gv\n".into() } else { "put false into gv\n".into() };
+                            if *until { "until gv".into() } else { "while gv".into() }
                         }
                     };
                     out.push_str(&head);
